@@ -192,6 +192,11 @@ func BuildSchemaValidationV31(schema *base.Schema, validationString string, fiel
 					schema.Enum = append(schema.Enum, node)
 				}
 			}
+
+			if len(schema.Enum) == 0 {
+				// None of the values fit the field's type - an empty 'enum' keyword rejects every value, leave it out (as 3.0 does)
+				schema.Enum = nil
+			}
 		}
 	}
 }
